@@ -91,7 +91,9 @@ impl MapSpec {
 #[derive(Clone, Debug, Serialize, Deserialize, PartialEq, Eq, Hash)]
 pub struct InnerMapSpec {
   pub original_source: Option<String>,
-  pub inner_map: MapSpec,
+  /// `None`: only `original_source` / `remove_original_source` are set
+  /// (they are then unused by every observer but still part of the value)
+  pub inner_map: Option<MapSpec>,
   pub remove_original_source: bool,
 }
 
@@ -361,7 +363,7 @@ impl Builder {
         name: name.clone(),
         source_map: map.build(),
         original_source: inner.as_ref().and_then(|i| i.original_source.clone()),
-        inner_source_map: inner.as_ref().map(|i| i.inner_map.build()),
+        inner_source_map: inner.as_ref().and_then(|i| i.inner_map.as_ref().map(|m| m.build())),
         remove_original_source: inner
           .as_ref()
           .is_some_and(|i| i.remove_original_source),
